@@ -404,7 +404,11 @@ class TopLevelVisitor(ast.NodeVisitor):
             >>>     assert got == want
         """
         # lineno points to the last line of a string in CPython < 3.8
-        if hasattr(docnode, 'end_lineno'):
+        if getattr(docnode, 'end_lineno', None) is not None and PLAT_IMPL != 'PyPy':
+            # Both ends of the literal are recorded, nothing to search for
+            # (the search below expects the literal to start its line)
+            return docnode.lineno, docnode.end_lineno
+        elif hasattr(docnode, 'end_lineno'):
             endpos = docnode.end_lineno - 1
         else:
             if PLAT_IMPL == 'PyPy':
